@@ -3407,7 +3407,8 @@ def _literal_sites(fa):
 def _access_paths(fa, e, at, _seen=None, depth=12):
     """How the fresh resolution of a rule's symbol (`self.resolver()` / `self.ref_resolver()`) and the state the rule captured
     (`self.<field>`) reach the value of `e`: a set of (root, path, frozen) with root 'fresh' or 'cap:<field>' and path the
-    attribute names / '[]' / '<fn>()' steps that NARROW the object on the way.  Looking through decorator wrappers
+    attribute names / '[]' / '<fn>()' steps that NARROW the object on the way (frozen: falsy, True, or the name of the function
+    the object was handed to as a whole).  Looking through decorator wrappers
     (`.__wrapped__`) is not a step; a call that transforms the value as a whole freezes the path (what is done to its result
     says nothing about parts of the object).  Locals are followed to every definition that reaches them."""
     seen = _seen if _seen is not None else set()
@@ -3428,9 +3429,12 @@ def _access_paths(fa, e, at, _seen=None, depth=12):
         if nm == "getattr" and isinstance(e.func, ast.Name) and len(e.args) >= 2 and A.const_str(e.args[1]) is not None:
             return ext(rec(e.args[0]), A.const_str(e.args[1]))
         if isinstance(e.func, ast.Name) and nm in _NARROWING_CALLS and e.args:
-            return {(r_, p_, True) for (r_, p_, _f) in ext(rec(e.args[0]), nm + "()")}
+            return {(r_, p_, _f or True) for (r_, p_, _f) in ext(rec(e.args[0]), nm + "()")}
+        if isinstance(e.func, ast.Name) and nm == "id" and len(e.args) == 1 and not e.keywords:
+            return rec(e.args[0])       # equal ids <=> the same object: neither a step nor a transformation
+        # the frozen mark of a value handed to a call as a whole is the name of the (innermost) function it went through
         for x in list(e.args) + [k.value for k in e.keywords] + ([rc] if rc is not None else []):
-            out |= {(r_, p_, True) for (r_, p_, _f) in rec(x.value if isinstance(x, ast.Starred) else x)}
+            out |= {(r_, p_, _f or nm or True) for (r_, p_, _f) in rec(x.value if isinstance(x, ast.Starred) else x)}
         return out
     if isinstance(e, ast.Attribute):
         if isinstance(e.value, ast.Name) and e.value.id == "self":
@@ -3454,7 +3458,7 @@ def _access_paths(fa, e, at, _seen=None, depth=12):
         for ch in ast.iter_child_nodes(e):
             for x in ast.walk(ch):
                 if isinstance(x, (ast.Call, ast.Attribute, ast.Name)):
-                    out |= {(r_, p_, True) for (r_, p_, _f) in _access_paths(fa, x, at, seen, 2)}
+                    out |= {(r_, p_, _f or True) for (r_, p_, _f) in _access_paths(fa, x, at, seen, 2)}
         return out
     for ch in ast.iter_child_nodes(e):
         if isinstance(ch, ast.expr):
@@ -3462,7 +3466,7 @@ def _access_paths(fa, e, at, _seen=None, depth=12):
     return out
 
 
-def _hashed_paths(ck, cls):
+def _hashed_paths(ck, cls, with_transform=False):
     """What compute_hash reads of the state the rule captured: {(field, path)}; empty when the rule contributes nothing."""
     m = cls.methods.get("compute_hash")
     out = set()
@@ -3472,9 +3476,55 @@ def _hashed_paths(ck, cls):
     for r in fa.returns():
         if r.value is None or A.is_none(r.value) or not fa.nodes(r):
             continue
-        for (root, path, _fz) in _access_paths(fa, r.value, fa.nodes(r)[0]):
+        for (root, path, fz) in _access_paths(fa, r.value, fa.nodes(r)[0]):
             if root.startswith("cap:"):
-                out.add((root[4:], path))
+                out.add((root[4:], path, fz) if with_transform else (root[4:], path))
+    return out
+
+
+def _descended_paths(ck, cls):
+    """What the rule reads of the state it captured when it collects the rules below it (collect_transitive_dependencies):
+    {(field, path, frozen)} with `frozen` the function the object is handed to as a whole.  The rules of the names used by a
+    function, the table those names are looked up in and the scope test are all derived from the captured object here, so
+    they are part of what 'unchanged' vouches for, exactly as the hashed piece is."""
+    m = cls.methods.get("collect_transitive_dependencies")
+    out = set()
+    if m is None:
+        return out
+    fa = FA(ck, m)
+    for st in fa.stmts():
+        ns = fa.nodes(st)
+        if not ns:
+            continue
+        if isinstance(st, (ast.Assign, ast.AnnAssign)) and all(isinstance(t, ast.Name) for t in (st.targets if isinstance(st, ast.Assign) else [st.target])):
+            continue    # a local: judged where it is used
+        roots = [st.test] if isinstance(st, (ast.If, ast.While)) else [st.iter] if isinstance(st, (ast.For, ast.AsyncFor)) else \
+            [i.context_expr for i in st.items] if isinstance(st, (ast.With, ast.AsyncWith)) else \
+            [] if isinstance(st, (ast.Try, ast.FunctionDef, ast.AsyncFunctionDef, ast.ClassDef)) else \
+            [x for x in ast.iter_child_nodes(st) if isinstance(x, ast.expr)]
+        for rt in roots:
+            for (root, path, fz) in _access_paths(fa, rt, ns[0]):
+                if root.startswith("cap:"):
+                    out.add((root[4:], path, fz))
+    return out
+
+
+def _prune_constant_literals(ways):
+    """A constant among the literals of a way (`False if same else True`): the way is impossible when the constant would have to
+    come out the other way, and says nothing more when it comes out as it must."""
+    out = []
+    for w in ways:
+        keep = []
+        for (t, pol) in w:
+            c = _parse_lit(t)
+            if isinstance(c, ast.Constant) and (isinstance(c.value, (bool, int, str)) or c.value is None):
+                if bool(c.value) != pol:
+                    keep = None
+                    break
+                continue
+            keep.append((t, pol))
+        if keep is not None:
+            out.append(keep)
     return out
 
 
@@ -3504,6 +3554,18 @@ def check_did_change(ck, R):
         # the answer False without a comparison is allowed only when nothing is tracked
         allowed_false_guard = {"GlobalVariableHashRule": (("self.last_value is None", True),)}.get(cls.name, ())
         hashed = _hashed_paths(ck, cls)
+        # everything the rule derives from the state it captured: the hashed piece and the rules below it
+        derived = {d_ for d_ in _hashed_paths(ck, cls, True) | _descended_paths(ck, cls) if d_[0] in captured}
+
+        def covers(e_, d_):
+            """does equality of access `e_` (one side of the comparison) vouch for the derived use `d_`?  A part compared
+            directly vouches for everything read below it; a value compared only as seen through a function (`f(new) == f(old)`)
+            vouches for `f(old)` and nothing else."""
+            (r_, p_, z_), (_fl, q_, dz_) = e_, d_
+            if isinstance(z_, str) and r_ != "fresh":
+                return dz_ == z_ and q_ == p_
+            return q_[:len(p_)] == p_
+
         paths = _exit_paths(fa)
         ck.need(paths is not None, "%s.did_change: too many paths" % cls.qual)
         # The function is judged on its PATH CLASSES: every acyclic path to the normal exit with the literals of the branch
@@ -3539,8 +3601,11 @@ def check_did_change(ck, R):
                         fr = {x for x in a_ if x[0] == "fresh"}
                         cp = {x for x in b_ if x[0].startswith("cap:") and x[0][4:] in captured}
                         if fr and cp:
-                            narrow = sorted({p_ for (_r, p_, _f) in fr | cp if any(q_[:len(p_)] != p_ for (_fl, q_) in hashed)})
-                            res = {"kind": "cmp", "covering": not narrow, "narrow": narrow}
+                            narrow = sorted({p_ + ((z_ + "()",) if isinstance(z_, str) and r_ != "fresh" else ()) for (r_, p_, z_) in fr | cp
+                                             if any(not covers((r_, p_, z_), d_) for d_ in derived)})
+                            missing = sorted({_fmt_path(d_[0], d_[1]) + (" (handed to %s)" % d_[2] if isinstance(d_[2], str) else "")
+                                              for d_ in derived for e_ in fr | cp if not covers(e_, d_)})
+                            res = {"kind": "cmp", "covering": not narrow, "narrow": narrow, "missing": missing}
                             break
                     if res["kind"] is None and A.is_none(e.comparators[0]) and isinstance(op, (ast.Is, ast.IsNot)):
                         fl = _flow(fa, e.left, at) if at is not None else {id(x): x for x in ast.walk(e.left)}
@@ -3599,7 +3664,7 @@ def check_did_change(ck, R):
                 ways = [[]]
             else:
                 try:
-                    ways = fa._alts(val, vnode, False)
+                    ways = _prune_constant_literals(fa._alts(val, vnode, False))
                 except AnalysisError:
                     ways = [[(A.norm(val), False)]]
             base_cmp = [t for t in lits if info(t)["kind"] in ("cmp", "presence")]
@@ -3644,10 +3709,14 @@ def check_did_change(ck, R):
             if narrow:
                 ck.ob(R, fa.key(ret, "compares-what-is-hashed"), False,
                       "%s.did_change answers 'unchanged' when only `%s` of the freshly resolved object equals that of the captured one, but the rule's hash "
-                      "(compute_hash) is computed from %s: an object that differs elsewhere (default values, captured closure constants, another "
-                      "attribute) gets a different hash, yet no recomputation is asked for and results of the earlier edition are served"
-                      % (cls.name, narrow[0][7:], ", ".join(sorted(_fmt_path(f_, q_) for (f_, q_) in hashed)) or "nothing"), fa.where(ret))
-                why = why or "compares only a part (%s) of what the rule hashes" % narrow[0][7:]
+                      "(compute_hash) is computed from %s and the rules below it (collect_transitive_dependencies: the names it uses, the table "
+                      "they are resolved in, its scope) from %s: an object that differs elsewhere (default values, captured closure constants, "
+                      "another attribute, the module whose globals it reads) gets a different hash or different dependencies, yet no recomputation "
+                      "is asked for and results of the earlier edition are served"
+                      % (cls.name, narrow[0][7:], ", ".join(sorted(_fmt_path(f_, q_) for (f_, q_) in hashed)) or "nothing",
+                         ", ".join(sorted({_fmt_path(f_, q_) + (" (handed to %s)" % z_ if isinstance(z_, str) else "") for (f_, q_, z_) in _descended_paths(ck, cls) if f_ in captured})) or "nothing"),
+                      fa.where(ret))
+                why = why or "compares only a part (%s) of what the rule hashes and descends from" % narrow[0][7:]
             rest = [x for x in reasons if not x.startswith("narrow:")]
             if rest:
                 ck.ob(R, fa.key(ret, "no-shortcut"), False,
